@@ -39,7 +39,10 @@ FLAVOURS = {
                   '-fno-omit-frame-pointer']),
     'ubreport': (CXX, ['-O1', '-g', '-fsanitize=undefined', '-fno-omit-frame-pointer']),
     # ASan aborts, UBSan reports every distinct site and continues (sites are collected from stderr)
+    # sanrec0 = -O0: with optimisation GCC merges identical overflow checks of inlined callees, so which of several identical
+    # expressions reports (and under which function) depends on code layout; unoptimised, every site reports on its own
     'sanrec': (CXX, ['-O1', '-g', '-fsanitize=address,undefined', '-fno-omit-frame-pointer']),
+    'sanrec0': (CXX, ['-O0', '-g', '-fsanitize=address,undefined', '-fno-omit-frame-pointer']),
 }
 BASE_FLAGS = ['-std=gnu++11', '-DUNIX_HOST_DUINO', '-DSEANDST_ACETIME_VERIF=1', '-w',
               '-I', os.path.join(VERIF, 'cxx/shim'), '-I', os.path.join(VERIF, 'cxx/common')]
@@ -390,13 +393,13 @@ def ub_sites(stderr_texts):
             elif msg.startswith('division by zero'): kind = 'division-by-zero'
             fn = None
             for j in range(i + 1, min(i + 12, len(lines))):
-                fm = re.match(r'\s+#\d+ 0x[0-9a-f]+ in (.+?) (/\S+):(\d+)', lines[j])
+                fm = re.match(r'\s+#\d+ 0x[0-9a-f]+ in (.+?) [(/]', lines[j])      # "fn /path:line" or "fn (module+0x..)" 
                 if not fm:
                     if re.match(r'\S+?:\d+:\d+: runtime error', lines[j]):
                         break
                     continue
                 f = fm.group(1)
-                if 'ace_time' in f:
+                if f.startswith('ace_time::'):      # the innermost library frame (not a harness template instantiated with a library type)
                     fn = re.sub(r'\(.*$', '', f)
                     break
             site = os.path.basename(fil) + ':' + line
